@@ -247,9 +247,9 @@ EQUIVALENT = {
                             'crash model such a transaction always still has status "c" (the status byte is flipped only after the '
                             'whole transaction is written and synced), so it is dropped by the status test in the same condition',
  'sanity-skips-index-compare': '_check_sanity no longer compares the index entries of the last transaction; an index that passes the '
-                               'remaining tests (position is a transaction boundary with the recorded tid before it) and still maps '
-                               'these oids elsewhere needs a different history with the same tid at the same offset - no earlier '
-                               'moment of the same file (before a pack, before later commits) produces one',
+                               'remaining tests (position is a transaction boundary) and still maps these oids elsewhere needs '
+                               'transactions that line up after a pack - the shape of the open known finding of C09 (pre-pack index '
+                               'accepted by coincidence); generated histories do not hit it within any budget tried',
 }
 MUTANTS = [m for m in MUTANTS if m[1] not in EQUIVALENT]
 MUTANTS += [
